@@ -662,8 +662,8 @@ streams); anything may follow.  ZSTD_decodeLiteralsBlock returns exactly `syms`,
 and installs the table built from the weights.
 Hypotheses on the weights: `WeightsOK` (Kraft equality for depth `log ≤ 12`), a present last symbol, at least one explicit weight,
 at least two symbols of weight 1.  Size hypotheses: the ones the C writer enforces (see `literals_roundtrip_compressed_of_stats`).
-The FSE-compressed tree description (HUF_compressWeights) is NOT covered here: for it `literals_roundtrip_compressed_of_stats`
-applies once `Huf.readStats` is known to read that description back. -/
+The FSE-compressed tree description (HUF_compressWeights) is covered by `WeightsRT.literals_roundtrip_compressed_fse`
+(`literals_roundtrip_compressed_of_stats` with `WeightsRT.readStats_fse`). -/
 theorem literals_roundtrip_compressed (ws : List Nat) (last log : Nat) (ok : WeightsOK (ws.toArray.push last) log)
     (hlast : 0 < last) (hlog : log ≤ 12) (hr1 : 2 ≤ (ws ++ [last]).count 1) (hws : 1 ≤ ws.length)
     (single : Bool) (wh streams : ByteArray) (syms : List Nat) (hwh : directWeights ws = some wh)
@@ -697,6 +697,186 @@ theorem literals_roundtrip_compressed (ws : List Nat) (last log : Nat) (ok : Wei
   have hlh : 3 ≤ lhSize syms.length := by unfold lhSize; omega
   exact literals_roundtrip_compressed_of_stats single wh streams syms _ log src start srcSize ent bsm dstCap hsec hstats
     (by omega) hsyms hstreams hsingle hc hn hbsm hcap hsz (by omega)
+
+/-! ### treeless literals: the Huffman table of an earlier block is re-used -/
+
+/-- `Huf.buildTable` does not look at the number of bytes the tree description took -/
+theorem buildTable_used (weights : Array Nat) (log u1 u2 : Nat) :
+    Huf.buildTable ⟨weights, log, u1⟩ = Huf.buildTable ⟨weights, log, u2⟩ := rfl
+
+theorem treeless_eq (single : Bool) (streams : ByteArray) (n : Nat) :
+    compressedLiterals single ByteArray.empty streams n set_repeat = compressedHeader set_repeat single n streams.size ++ streams := by
+  unfold compressedLiterals
+  rw [ByteArray.size_empty, Nat.zero_add, ByteArray.append_empty]
+
+/-- HUF_compress1X_usingCTable / HUF_compress4X_usingCTable never return an empty output as a success -/
+theorem hufStreams_size_pos {single : Bool} {codes : Array (Nat × Nat)} {syms : List Nat} {streams : ByteArray}
+    (h : hufStreams single codes syms = some streams) : 1 ≤ streams.size := by
+  unfold hufStreams at h
+  cases single with
+  | true =>
+    simp only [if_true] at h
+    injection h with h
+    subst h
+    rw [(BitW.ofFields_spec _).1]
+    omega
+  | false =>
+    simp only [Bool.false_eq_true, if_false] at h
+    unfold HufEnc.compress4 at h
+    split at h
+    · cases h
+    · simp only [] at h
+      unfold HufEnc.layout4 at h
+      repeat' split at h
+      all_goals cases h
+      simp only [ByteArray.size_append]
+      omega
+
+/-- TREELESS LITERALS (`hType = set_repeat`).  `src` holds at `start` the literals section that ZSTD_compressLiterals emits for the
+literals `syms` when HUF_compress{1,4}X_repeat re-used the table of an earlier block: header (3/4/5 bytes, `compressedHeader` with type
+`set_repeat`), NO tree description, then `streams = hufStreams single codes syms` under the codes of that table's weights; anything
+may follow.  IF the decoder holds the table built from these weights (`ent.huf`, i.e. `dctx->HUFptr` with `litEntropy = 1`: installed
+by the block that described it, see `literals_roundtrip_compressed`), THEN ZSTD_decodeLiteralsBlock returns exactly `syms`, consumes
+exactly the section, reports `treeless` and keeps the table.  (Without a table the decoder fails: dictionary_corrupted.)
+Hypotheses on the weights: `WeightsOK` (what HUF_readStats guaranteed when the table was read).  Size hypotheses: the ones the C
+writer enforces (see `literals_roundtrip_compressed_of_stats`); the block has at least 5 bytes. -/
+theorem literals_roundtrip_treeless (single : Bool) (streams : ByteArray) (syms : List Nat) (weights : Array Nat)
+    (log used : Nat) (ok : HufRT.WeightsOK weights log) (hlog : log ≤ 56)
+    (src : Bytes) (start srcSize : Nat) (ent : Entropy) (bsm dstCap : Nat)
+    (hent : ent.huf = some (Huf.buildTable ⟨weights, log, used⟩))
+    (hsec : src.extract start (start + (compressedLiterals single ByteArray.empty streams syms.length set_repeat).size)
+      = compressedLiterals single ByteArray.empty streams syms.length set_repeat)
+    (hsyms : ∀ s ∈ syms, ∃ hs : s < weights.size, 0 < weights[s])
+    (hstreams : hufStreams single (HufEnc.codesOf weights log) syms = some streams)
+    (hsingle : single = true → syms.length < 1024)
+    (hc : streams.size < syms.length) (hn : syms.length ≤ 2 ^ 17)
+    (hbsm : syms.length ≤ bsm) (hcap : syms.length ≤ dstCap)
+    (hsz : (compressedLiterals single ByteArray.empty streams syms.length set_repeat).size ≤ srcSize) (h5 : 5 ≤ srcSize) :
+    decodeLiterals src start srcSize ent bsm dstCap
+      = .ok { lits := litBytes syms, used := (compressedLiterals single ByteArray.empty streams syms.length set_repeat).size,
+              ent := { ent with huf := some (Huf.buildTable ⟨weights, log, used⟩) }, mode := .treeless,
+              streams := if single then 1 else 4 } := by
+  have c1 : ¬ srcSize < 2 := by omega
+  have c2 : ¬ srcSize < 5 := by omega
+  have c3 : ¬ syms.length > bsm := by omega
+  have c4 : ¬ min bsm dstCap < syms.length := by omega
+  have h6 : single = false → 6 ≤ syms.length := by
+    intro hs; subst hs
+    have := HufRT.compress4_accepts hstreams; omega
+  rw [treeless_eq] at hsec hsz ⊢
+  generalize hUg : (compressedHeader set_repeat single syms.length streams.size ++ streams).size = U at hsz ⊢
+  unfold compressedHeader set_repeat at *
+  simp only [Nat.shiftLeft_eq, Nat.reducePow, Nat.reduceMul] at hsec hUg
+  unfold decodeLiterals
+  by_cases hA : syms.length < 1024
+  · -- 3-byte header
+    rw [if_pos hA] at hsec hUg
+    have hb0 := hdr_u8_zero _ 3 _ hsec (by decide)
+    have hb1 := hdr_u8 _ 3 _ hsec 1 (by decide)
+    have hb2 := hdr_u8 _ 3 _ hsec 2 (by decide)
+    have hb3 := ByteArray.u8_lt src (start + 3)
+    have hstr : src.extract (start + 3) (start + 3 + streams.size) = streams := by
+      have := body_embedded _ streams hsec
+      rwa [le_size] at this
+    simp only [ByteArray.size_append, le_size] at hUg
+    have hU : streams.size + 3 = U := by omega
+    have c6 : ¬ U > srcSize := by omega
+    have hty : src.u8 start &&& 3 = 3 := by rw [and3, hb0]; split <;> omega
+    have hdec := streams_decode ok hlog used single syms hsyms streams hstreams src _ hstr
+    cases single with
+    | true =>
+      simp only [if_true, Nat.zero_mul, Nat.add_zero] at hb0 hb1 hb2 hdec
+      have c7 : ¬ syms.length < 6 ∨ True := Or.inr trivial
+      have hlhl : (src.u8 start >>> 2) &&& 3 = 0 := by rw [and3, Nat.shiftRight_eq_div_pow, hb0]; omega
+      have hls : (src.le32 start >>> 4) &&& 1023 = syms.length := by
+        unfold ByteArray.le32
+        rw [and1023, Nat.shiftRight_eq_div_pow, Nat.shiftLeft_eq, Nat.shiftLeft_eq, Nat.shiftLeft_eq, hb0, hb1, hb2]; omega
+      have hcs : (src.le32 start >>> 14) &&& 1023 = streams.size := by
+        unfold ByteArray.le32
+        rw [and1023, Nat.shiftRight_eq_div_pow, Nat.shiftLeft_eq, Nat.shiftLeft_eq, Nat.shiftLeft_eq, hb0, hb1, hb2]; omega
+      simp only [bind, Except.bind, pure, Except.pure, throw, throwThe, MonadExceptOf.throw, hty, hlhl, Nat.reduceBEq,
+        Bool.or_self, Bool.false_eq_true, ↓reduceIte, Bool.or_false, Bool.or_true, Bool.true_or, Bool.false_and, Bool.true_and,
+        Bool.not_true, Bool.not_false, decide_eq_true_eq, hls, hcs, Gen.MIN_CBLOCK_SIZE, Gen.MIN_LITERALS_FOR_4_STREAMS, c1, c2,
+        c3, c4, c6, c7, BEq.rfl, Nat.reduceAdd, hent, Option.isNone_some, Option.getD_some, Bool.and_false, hdec, hU]
+    | false =>
+      simp only [Bool.false_eq_true, if_false, Nat.one_mul] at hb0 hb1 hb2 hdec
+      have c7 : ¬ syms.length < 6 := by have := h6 rfl; omega
+      have hlhl : (src.u8 start >>> 2) &&& 3 = 1 := by rw [and3, Nat.shiftRight_eq_div_pow, hb0]; omega
+      have hls : (src.le32 start >>> 4) &&& 1023 = syms.length := by
+        unfold ByteArray.le32
+        rw [and1023, Nat.shiftRight_eq_div_pow, Nat.shiftLeft_eq, Nat.shiftLeft_eq, Nat.shiftLeft_eq, hb0, hb1, hb2]; omega
+      have hcs : (src.le32 start >>> 14) &&& 1023 = streams.size := by
+        unfold ByteArray.le32
+        rw [and1023, Nat.shiftRight_eq_div_pow, Nat.shiftLeft_eq, Nat.shiftLeft_eq, Nat.shiftLeft_eq, hb0, hb1, hb2]; omega
+      simp only [bind, Except.bind, pure, Except.pure, throw, throwThe, MonadExceptOf.throw, hty, hlhl, Nat.reduceBEq,
+        Bool.or_self, Bool.false_eq_true, ↓reduceIte, Bool.or_false, Bool.or_true, Bool.true_or, Bool.false_and, Bool.true_and,
+        Bool.not_true, Bool.not_false, decide_eq_true_eq, hls, hcs, Gen.MIN_CBLOCK_SIZE, Gen.MIN_LITERALS_FOR_4_STREAMS, c1, c2,
+        c3, c4, c6, c7, BEq.rfl, Nat.reduceAdd, hent, Option.isNone_some, Option.getD_some, Bool.and_false, hdec, hU]
+  · have hsf : single = false := by
+      cases single with
+      | false => rfl
+      | true => exact absurd (hsingle rfl) hA
+    subst hsf
+    have c7 : ¬ syms.length < 6 := by omega
+    rw [if_neg hA] at hsec hUg
+    by_cases hB : syms.length < 16384
+    · -- 4-byte header
+      rw [if_pos hB] at hsec hUg
+      have hb0 := hdr_u8_zero _ 4 _ hsec (by decide)
+      have hb1 := hdr_u8 _ 4 _ hsec 1 (by decide)
+      have hb2 := hdr_u8 _ 4 _ hsec 2 (by decide)
+      have hb3 := hdr_u8 _ 4 _ hsec 3 (by decide)
+      have hstr : src.extract (start + 4) (start + 4 + streams.size) = streams := by
+        have := body_embedded _ streams hsec
+        rwa [le_size] at this
+      simp only [ByteArray.size_append, le_size] at hUg
+      have hU : streams.size + 4 = U := by omega
+      have c6 : ¬ U > srcSize := by omega
+      have hty : src.u8 start &&& 3 = 3 := by rw [and3, hb0]; omega
+      have hdec := streams_decode ok hlog used false syms hsyms streams hstreams src _ hstr
+      simp only [Bool.false_eq_true, if_false] at hdec
+      have hlhl : (src.u8 start >>> 2) &&& 3 = 2 := by rw [and3, Nat.shiftRight_eq_div_pow, hb0]; omega
+      have hls : (src.le32 start >>> 4) &&& 16383 = syms.length := by
+        unfold ByteArray.le32
+        rw [and16383, Nat.shiftRight_eq_div_pow, Nat.shiftLeft_eq, Nat.shiftLeft_eq, Nat.shiftLeft_eq, hb0, hb1, hb2, hb3]; omega
+      have hcs : src.le32 start >>> 18 = streams.size := by
+        unfold ByteArray.le32
+        rw [Nat.shiftRight_eq_div_pow, Nat.shiftLeft_eq, Nat.shiftLeft_eq, Nat.shiftLeft_eq, hb0, hb1, hb2, hb3]; omega
+      simp only [bind, Except.bind, pure, Except.pure, throw, throwThe, MonadExceptOf.throw, hty, hlhl, Nat.reduceBEq,
+        Bool.or_self, Bool.false_eq_true, ↓reduceIte, Bool.or_false, Bool.or_true, Bool.true_or, Bool.false_and, Bool.true_and,
+        Bool.not_true, Bool.not_false, decide_eq_true_eq, hls, hcs, Gen.MIN_CBLOCK_SIZE, Gen.MIN_LITERALS_FOR_4_STREAMS, c1, c2,
+        c3, c4, c6, c7, BEq.rfl, Nat.reduceAdd, hent, Option.isNone_some, Option.getD_some, Bool.and_false, hdec, hU]
+    · -- 5-byte header
+      rw [if_neg hB] at hsec hUg
+      rw [ByteArray.append_assoc] at hsec
+      have hb0 := hdr_u8_zero _ 4 _ hsec (by decide)
+      have hb1 := hdr_u8 _ 4 _ hsec 1 (by decide)
+      have hb2 := hdr_u8 _ 4 _ hsec 2 (by decide)
+      have hb3 := hdr_u8 _ 4 _ hsec 3 (by decide)
+      have hb4 := body_u8 _ _ hsec 0 (by rw [ByteArray.size_append, le_size]; omega)
+      rw [le_size, Nat.add_zero, u8_append_left _ _ _ (by rw [le_size]; decide), le_u8 _ _ _ (by decide)] at hb4
+      have hstr : src.extract (start + 5) (start + 5 + streams.size) = streams := by
+        have := body_embedded (_ ++ _) streams (by rw [ByteArray.append_assoc]; exact hsec)
+        rwa [ByteArray.size_append, le_size, le_size] at this
+      simp only [ByteArray.size_append, le_size] at hUg
+      have hU : streams.size + 5 = U := by omega
+      have c6 : ¬ U > srcSize := by omega
+      have hty : src.u8 start &&& 3 = 3 := by rw [and3, hb0]; omega
+      have hdec := streams_decode ok hlog used false syms hsyms streams hstreams src _ hstr
+      simp only [Bool.false_eq_true, if_false] at hdec
+      have hlhl : (src.u8 start >>> 2) &&& 3 = 3 := by rw [and3, Nat.shiftRight_eq_div_pow, hb0]; omega
+      have hls : (src.le32 start >>> 4) &&& 262143 = syms.length := by
+        unfold ByteArray.le32
+        rw [and262143, Nat.shiftRight_eq_div_pow, Nat.shiftLeft_eq, Nat.shiftLeft_eq, Nat.shiftLeft_eq, hb0, hb1, hb2, hb3]; omega
+      have hcs : src.le32 start >>> 22 + src.u8 (start + 4) <<< 10 = streams.size := by
+        unfold ByteArray.le32
+        rw [Nat.shiftRight_eq_div_pow] at hb4
+        rw [Nat.shiftRight_eq_div_pow, Nat.shiftLeft_eq, Nat.shiftLeft_eq, Nat.shiftLeft_eq,
+          Nat.shiftLeft_eq, hb0, hb1, hb2, hb3, hb4]; omega
+      simp only [bind, Except.bind, pure, Except.pure, throw, throwThe, MonadExceptOf.throw, hty, hlhl, Nat.reduceBEq,
+        Bool.or_self, Bool.false_eq_true, ↓reduceIte, Bool.or_false, Bool.or_true, Bool.true_or, Bool.false_and, Bool.true_and,
+        Bool.not_true, Bool.not_false, decide_eq_true_eq, hls, hcs, Gen.MIN_CBLOCK_SIZE, Gen.MIN_LITERALS_FOR_4_STREAMS, c1, c2,
+        c3, c4, c6, c7, BEq.rfl, Nat.reduceAdd, hent, Option.isNone_some, Option.getD_some, Bool.and_false, hdec, hU]
 
 /-! ### non-vacuity -/
 
